@@ -37,6 +37,19 @@ def _own_nodes(func):
             stack.append(c)
 
 
+_TYPER = [None]
+
+
+def _seq_of_nodes(t):
+    """node sequence, looking through iterator objects of the package"""
+    if is_node_seq(t):
+        return True
+    ty = _TYPER[0]
+    if ty is not None and t is not None and "top" not in t and any(isinstance(a, tuple) and a[0] in ("iter", "obj") for a in t):
+        return has_node(ty._iter_elem(t))
+    return False
+
+
 def lint_function(func, ft):
     """Yield Hit objects for one analysed function.  Also returns counts via
     the ``stats`` attribute of the generator's final StopIteration (unused)."""
@@ -199,15 +212,15 @@ def _lint_call(n, ty, ft, hit):
             hit("T3", n, "bool() of a node: calls __bool__/__len__")
         if name in ITER_BUILTINS and name not in ("max", "min", "next", "dict") and has_node(t0):
             hit("T5", n, "%s() applied to a node: calls __len__/__iter__" % name)
-        if name in ("set", "frozenset") and is_node_seq(t0):
+        if name in ("set", "frozenset") and _seq_of_nodes(t0):
             hit("T4", n, "%s() of nodes: calls __hash__ on each" % name)
-        if name in ("any", "all") and is_node_seq(t0):
+        if name in ("any", "all") and _seq_of_nodes(t0):
             hit("T3", n, "%s() applied directly to nodes: takes the truth value of each" % name)
         if name == "filter" and len(args) == 2 and isinstance(args[0], ast.Constant) and args[0].value is None \
                 and is_node_seq(ty(args[1])):
             hit("T3", n, "filter(None, nodes): takes the truth value of each node")
         if name in ("sorted", "max", "min") and _kw(n, "key") is None:
-            if is_node_seq(t0) and len(args) == 1:
+            if _seq_of_nodes(t0) and len(args) == 1:
                 hit("T2", n, "%s() of nodes without key: orders them with __lt__" % name)
             elif name in ("max", "min") and len(args) >= 2 and any(has_node(ty(a)) for a in args):
                 hit("T2", n, "%s() of nodes without key: orders them with __lt__/__gt__" % name)
@@ -251,6 +264,7 @@ def lint_decorators(func, typer):
 def lint_program(program, typer, files=None):
     """Run the lint over every function; returns (hits, stats)."""
     hits = []
+    _TYPER[0] = typer
     stats = {"functions": 0, "typed_node": 0, "typed_node_seq": 0, "typed_top": 0, "typed_total": 0}
     for func in program.all_funcs:
         if files is not None and func.module.relpath not in files:
